@@ -28,8 +28,9 @@
      (CursorInBounds; negative config ParseCursor_negeof.cfg).
    * nesting depth: "promptly" needs the total work to be polynomial in the nesting depth.  The work
      of a nested loop invocation must not be thrown away and redone: with Reparse = FALSE the cursor
-     is never restored to a position before the end of a nested invocation that has finished, so one
-     loop is started at one index at most MaxTries * MaxDepth times (ReparseBound).  Reparse = TRUE
+     is never restored to a position before the end of a nested invocation that has finished, so an
+     invocation that consumed input is never repeated at its start index (ReparseBound, with slack
+     linear in the nesting depth).  Reparse = TRUE
      models an until-probe that runs the full nested parser and restores (ifExpression's
      untilElseIfElseOrEnd runs the complete else / else-if parsers): every level multiplies the
      entries of the innermost body (negative config ParseCursor_negnest.cfg).  With
@@ -53,7 +54,7 @@ VARIABLES idx,        \* the cursor
           done
 vars == <<idx, stack, started, entered, done>>
 
-Frame(l) == [loop |-> l, last |-> -1, tops |-> 0, tries |-> 0, floor |-> 0]
+Frame(l) == [loop |-> l, last |-> -1, tops |-> 0, tries |-> 0, floor |-> 0, start |-> -1]
 Count(f, k) == IF k \in DOMAIN f THEN f[k] ELSE 0
 Bump(f, k) == (k :> Count(f, k) + 1) @@ f
 Depth == Len(stack)
@@ -63,7 +64,7 @@ SetTop(f) == [stack EXCEPT ![Depth] = f]
 \* the contract at a loop top
 TopOK(f, i) == f.last = -1 \/ i > f.last
 \* bookkeeping at a loop top
-AtTop(f, i) == [f EXCEPT !.last = i, !.tops = @ + 1, !.tries = 0]
+AtTop(f, i) == [f EXCEPT !.last = i, !.tops = @ + 1, !.tries = 0, !.start = IF f.tops = 0 THEN i ELSE @]
 
 Init == idx = 0 /\ stack = <<>> /\ started = FALSE /\ entered = <<>> /\ done = FALSE
 
@@ -79,8 +80,7 @@ Enter(l) == /\ ~done /\ Depth < MaxDepth
 LoopTop == /\ ~done /\ Depth > 0
            /\ (Faulty \/ TopOK(TopF, idx))
            /\ stack' = SetTop(AtTop(TopF, idx))
-           /\ entered' = IF TopF.tops = 0 THEN Bump(entered, <<TopF.loop, idx>>) ELSE entered
-           /\ UNCHANGED <<idx, started, done>>
+           /\ UNCHANGED <<idx, started, entered, done>>
 
 \* a sub-parser of the current iteration matches and consumes k >= 1 bytes
 Consume(k) == /\ ~done /\ Depth > 0 /\ TopF.tops > 0 /\ TopF.tries < MaxTries
@@ -107,7 +107,9 @@ Exit == /\ ~done /\ Depth > 0 /\ TopF.tops > 0
         /\ stack' = (IF Depth > 1
                       THEN [SubSeq(stack, 1, Depth - 1) EXCEPT ![Depth - 1].floor = idx]
                       ELSE <<>>)
-        /\ UNCHANGED <<idx, started, entered, done>>
+        \* an invocation that consumed input is work: count it under <<loop, start index>>
+        /\ entered' = IF idx > TopF.start THEN Bump(entered, <<TopF.loop, TopF.start>>) ELSE entered
+        /\ UNCHANGED <<idx, started, done>>
 
 Finish == /\ ~done /\ Depth = 0 /\ started
           /\ done' = TRUE
@@ -128,8 +130,8 @@ CursorInBounds == 0 <= idx /\ idx <= N
 \* a loop invocation sees at most N+1 tops: its indices at the tops are strictly increasing in 0..N
 TopBound == \A d \in 1..Depth : stack[d].tops <= N + 1
 LastInBounds == \A d \in 1..Depth : stack[d].last <= N
-\* one loop is started at one index a number of times that is polynomial in the nesting depth
-ReparseLimit == MaxTries * MaxDepth
+\* one loop does real work from one index a number of times that is at most linear in the nesting depth
+ReparseLimit == MaxDepth
 ReparseBound == \A k \in DOMAIN entered : entered[k] <= ReparseLimit
 \* every parse ends
 Termination == <>done
